@@ -29,6 +29,11 @@ use zkchannels_crypto::{
 
 type R = ChaCha20Rng;
 
+thread_local! {
+    /// which stage of `Prf::verify` refused the last honest proof
+    static WHY: std::cell::RefCell<String> = std::cell::RefCell::new(String::new());
+}
+
 #[derive(Debug, Clone, Copy, PartialEq, Eq)]
 enum Ty {
     ComG1,
@@ -145,12 +150,48 @@ impl<const N: usize> Prf<N> {
             Prf::R(p) => cb.with(p),
         }
     }
-    fn verify(&self, env: &Env<N>, ch: Challenge) -> bool {
+    fn verify_once(&self, env: &Env<N>, ch: Challenge) -> bool {
         match self {
             Prf::C1(p) => p.verify_knowledge_of_opening(&env.p1, ch),
             Prf::C2(p) => p.verify_knowledge_of_opening(&env.p2, ch),
             Prf::S(p) => p.verify_knowledge_of_signature(env.kp.public_key(), ch),
             Prf::R(p) => p.verify_knowledge_of_opening(env.kp.public_key(), ch).is_some(),
+        }
+    }
+    /// the proof after a trip through its wire form (None: it does not decode)
+    fn through_the_wire(&self) -> Option<Prf<N>> {
+        Some(match self {
+            Prf::C1(p) => Prf::C1(crate::wire::dec(&crate::wire::enc(p)).ok()?),
+            Prf::C2(p) => Prf::C2(crate::wire::dec(&crate::wire::enc(p)).ok()?),
+            Prf::S(p) => Prf::S(crate::wire::dec(&crate::wire::enc(p)).ok()?),
+            Prf::R(p) => Prf::R(crate::wire::dec(&crate::wire::enc(p)).ok()?),
+        })
+    }
+    /// An honest proof verifies: when first asked, when asked again, and after it went through its wire
+    /// form (which is how a verifier gets it). The stage that failed is left in WHY.
+    fn verify(&self, env: &Env<N>, ch: Challenge) -> bool {
+        let why = |s: &str| WHY.with(|w| *w.borrow_mut() = s.to_string());
+        if !self.verify_once(env, ch) {
+            why("in memory");
+            return false;
+        }
+        if !self.verify_once(env, ch) {
+            why("second verification of the same object");
+            return false;
+        }
+        match self.through_the_wire() {
+            None => {
+                why("the honest proof does not decode from its own encoding");
+                false
+            }
+            Some(p) => {
+                if p.verify_once(env, ch) {
+                    true
+                } else {
+                    why("after a trip through the wire form");
+                    false
+                }
+            }
         }
     }
     fn rs(&self) -> [Scalar; N] {
@@ -329,7 +370,7 @@ fn run_conj<const N: usize>(
             c.count(&format!("honest_rejected[{}]", tys[i].short()), 1);
             c.violation(
                 &format!("C10 honest-proof-rejected {} proof={}:{}", sig, i, tys[i].short()),
-                json!({"challenge": hex(&ch_p.to_scalar().to_bytes()), "responses": hexs(&rs[i]), "commitment_scalars": hexs(&cs[i]), "inputs": detail}),
+                json!({"challenge": hex(&ch_p.to_scalar().to_bytes()), "responses": hexs(&rs[i]), "commitment_scalars": hexs(&cs[i]), "inputs": detail, "refused": WHY.with(|w| w.borrow().clone())}),
             );
         }
     }
@@ -960,6 +1001,51 @@ fn range_cases(c: &mut Ctx, m: &'static Merchant) {
     }
 }
 
+/// Signature proofs built while one scalar draw of the prover is zero (a zero blinding factor, a zero
+/// commitment scalar): unless the draw was the signature randomiser (which gives the all-identity signature,
+/// C11's subject) the proof is an honest proof and must verify.
+fn scripted_signature_proofs<const N: usize>(c: &mut Ctx) {
+    let name = format!("scripted-prover/Sig/N={}", N);
+    c.case(&name, |c| {
+        let mut rng = c.rng(&name);
+        let env = Env::<N>::new(&mut rng);
+        let (msg, mname) = message::<N>(&mut rng, 9);
+        let m = Message::new(msg);
+        let sig = m.sign(&mut rng, &env.kp);
+        let mut seed = [0u8; 32];
+        rng.fill_bytes(&mut seed);
+        let mut dry = crate::srng::ScriptRng::new(seed);
+        let _ = SignatureProofBuilder::generate_proof_commitments(&mut dry, Message::new(msg), sig, &[None; N], env.kp.public_key());
+        let id1 = crate::wire::g1_identity_bytes();
+        for d in dry.draws_of_len(64) {
+            let mut r = crate::srng::ScriptRng::new(seed);
+            r.inject(d, vec![0u8; 64]);
+            let b = SignatureProofBuilder::generate_proof_commitments(&mut r, Message::new(msg), sig, &[None; N], env.kp.public_key());
+            if r.consumed != 1 {
+                continue;
+            }
+            let ch = ChallengeBuilder::new().with(&b).finish();
+            let p = b.generate_proof_response(ch);
+            let degenerate = crate::tracer::trace(&p).ok().and_then(|t| t.fget("blinded_signature/sigma1").ok()).map(|x| x == id1).unwrap_or(true);
+            if degenerate {
+                c.count("scripted_prover_degenerate_signature(skipped)", 1);
+                continue;
+            }
+            c.eval();
+            c.distinct(&format!("{}/zero-draw{}", name, d));
+            let prf = Prf::<N>::S(p);
+            if prf.verify(&env, ch) {
+                c.count("honest_verified[Sig,scripted-prover]", 1);
+            } else {
+                c.violation(
+                    &format!("C10 honest-proof-rejected scripted-prover:zero-draw N={} proof=0:Sig", N),
+                    json!({"draw": d, "message_classes": mname, "refused": WHY.with(|w| w.borrow().clone())}),
+                );
+            }
+        }
+    });
+}
+
 pub fn run(c: &mut Ctx) {
     // a prover that starts its challenge with ChallengeBuilder::new() and a verifier that starts with
     // ChallengeBuilder::default() (or the other way round) must agree
@@ -990,6 +1076,9 @@ pub fn run(c: &mut Ctx) {
         Err(e) => return c.inconclusive(&e),
     };
     verif_hooks::clear();
+    scripted_signature_proofs::<1>(c);
+    scripted_signature_proofs::<2>(c);
+    scripted_signature_proofs::<5>(c);
     basic_cases::<1>(c);
     basic_cases::<2>(c);
     basic_cases::<3>(c);
